@@ -1,13 +1,15 @@
-(* C06 -- FEN output parses back.  PARTIAL.
-   Proved on the model: the decimal printing of both clocks round-trips through the integer parser for every value
-   0..2^31-1; the two characters printed for an en-passant square parse back to that square in both arithmetic modes.
-   The board field round-trips for every well-formed position in both modes (FenBoard.v), and for every valid position
-   WITHOUT castling rights the whole printed string parses back to the position itself, key included (FenRound.v).
-   The castling letters (incl. the Shredder letter for an inner rook, repaired in eb1b15a) and the
-   whole-string round trip are decided by the correspondence run on positions reached by play and on canonical
-   X-FEN strings written by an independent printer. *)
+(* C06 -- FEN output parses back.
+   PROVED on the model for the first sentence of the property (C06_fen_roundtrip): for every valid position whose castle files
+   of rights NOT held are at their defaults -- every subset of the four rights, standard or Chess960 files, K/Q/k/q or file
+   letters as the printer chooses, either side to move, both arithmetic modes -- the printed FEN parses back to the very same
+   position record, key included.  Positions reached by play in Chess960 can carry the file of a LOST right in `castle_files`
+   (makemove clears the flag, not the file): for those the printed FEN parses back to the position with such dead files reset
+   (C06_fen_roundtrip_modulo_dead_files; witness C06_dead_file_witness) -- the same chess position, a different record; the
+   dead file is not printed and is read only by code that tests the flag first (but see C05_alias_geometry_is_needed).
+   The converse direction (canonical X-FEN string -> same string) is decided by the correspondence run on canonical strings
+   written by an independent printer. *)
 From Coq Require Import NArith ZArith List Bool.
-From Rawr Require Import Consts Bits Magic Position MoveGen MakeMove Fen NotationFacts HashFacts KeyAbs KeyMove MakeStages FenBoard FenRound.
+From Rawr Require Import Consts Bits Magic Position MoveGen MakeMove Fen NotationFacts HashFacts KeyAbs KeyMove MakeStages GenSane Closure FenBoard FenRound FenCastle.
 Import ListNotations.
 Local Open Scope Z_scope.
 
@@ -51,7 +53,37 @@ Proof.
   - intros e H. discriminate H.
 Qed.
 
+(* ---- the whole string, with castling rights (FenCastle.v): RTC = RT with the castling clause `CasOK` (a held right has its
+   rook file on the proper wing of the king, <= 7; a right not held has the default file 7/0) *)
+Theorem C06_castling_field_roundtrip : forall np, CasOK np ->
+  castle_loop (c_us np) (c_them np) (rooks np) (kings np) (mkCA false false false false 7%N 0%N 7%N 0%N) [] (cas_field np)
+  = Some (mkCA (us_ksc np) (us_qsc np) (them_ksc np) (them_qsc np) (cf0 np) (cf1 np) (cf2 np) (cf3 np)).
+Proof. exact castle_field_roundtrip. Qed.
+Theorem C06_fen_roundtrip : forall mode p, RTC p -> exists s, get_fen p = Some s /\ set_fen mode (is_frc p) s = Some p.
+Proof. exact fen_roundtrip_rights. Qed.
+Theorem C06_fen_roundtrip_modulo_dead_files : forall mode p, RTW p ->
+  exists s, get_fen p = Some s /\ set_fen mode (is_frc p) s = Some (norm_files p).
+Proof. exact fen_roundtrip_modulo_dead_files. Qed.
+Theorem C06_premises_from_the_invariant : forall p, Inv p ->
+  (us_ksc p = false -> cf0 p = 7%N) -> (us_qsc p = false -> cf1 p = 0%N) -> (them_ksc p = false -> cf2 p = 7%N) -> (them_qsc p = false -> cf3 p = 0%N) ->
+  validate p = None -> (halfmoves p <= I32_MAX)%Z -> (fullmoves p <= I32_MAX)%Z -> RTC p.
+Proof. exact RTC_of_Inv. Qed.
+(* a position reached by one legal move in a Chess960 game whose record keeps the file of a lost right: its printed FEN parses
+   back with that file at the default *)
+Theorem C06_dead_file_witness : let q := makemove true frc_w (mkMv 5 13 6) in
+  existsb (fun x => (m_from x =? 5)%N && (m_to x =? 13)%N && (m_promo x =? 6)%N) (legal_moves frc_w) = true
+  /\ validate q = None /\ hash q = calculate_hash q /\ them_ksc q = false /\ cf2 q = 5%N
+  /\ match get_fen q with Some s => match set_fen true true s with Some q' => cf2 q' = 7%N | None => False end | None => False end.
+Proof. exact stale_file_witness. Qed.
+Example C06_rtc_startpos : RTC startpos.
+Proof. exact rtc_startpos. Qed.
+
 Print Assumptions C06_clock_roundtrip.
 Print Assumptions C06_ep_field_roundtrip.
 Print Assumptions C06_board_field_roundtrip.
 Print Assumptions C06_fen_roundtrip_without_castling_rights.
+Print Assumptions C06_castling_field_roundtrip.
+Print Assumptions C06_fen_roundtrip.
+Print Assumptions C06_fen_roundtrip_modulo_dead_files.
+Print Assumptions C06_premises_from_the_invariant.
+Print Assumptions C06_dead_file_witness.
